@@ -187,8 +187,12 @@ def ill_formed(names):
             [A, "-"], [A, "+", "-"], ["!"], [A, "&&", "!"]]
 
 
-def read_doc_tables(path="/repo/docs/source/solver/index.rst"):
+def read_doc_tables(path=None):
     """the 'List of operators' abbreviations and the 'Operation steps' rows of the documentation"""
+    import os
+    if path is None:
+        root = os.path.dirname(os.environ["PYVC_SRC"].rstrip("/")) if os.environ.get("PYVC_SRC") else "/repo"
+        path = os.path.join(root, "docs/source/solver/index.rst")
     text = open(path).read()
     m = re.search(r"csv-table:: Operation steps.*?\n\s*Type,\s*Operators\n(.*?)\n\s*\n", text, re.S)
     steps = []
